@@ -15,7 +15,7 @@ import (
 	insaneJSON "github.com/ozontech/insane-json"
 )
 
-func TestVerifOpenJsonCutSameField(t *testing.T) {
+func TestVerifJsonCutSameField(t *testing.T) {
 	const in = `{"a":"xxxxxxxxxx"}`
 	d, err := NewJsonDecoder(Params{"json_max_fields_size": map[string]any{"a": 2, "?": 2}})
 	if err != nil {
